@@ -779,6 +779,9 @@ func genVal(s *Stream, c *ColDef, prof *genProfile) Val {
 			return Val{Enc: leN(nil, 0, 4), Text: []byte("'null'")}
 		}
 		doc := genJSONDoc(s, 0)
+		if s.Chance(1, 40) {
+			doc = genDeepJSON(s)
+		}
 		bin := jsonBinary(doc)
 		enc := leN(nil, uint64(len(bin)), 4)
 		return Val{Enc: append(enc, bin...), Text: []byte(jsonExpected(doc, true))}
